@@ -516,6 +516,11 @@ func genericToGo(v value) interface{} {
 
 func init() {
 	natives["encoding/json.Marshal"] = func(fr *frame, a []value) value {
+		if fr.i.x != nil && fr.i.x.inMarshalBack > 0 {
+			// inside an interpreted MarshalJSON during the marshal-back walk: hand the value on
+			it := a[0].(iface)
+			return tuple{marshalTok{t: it.t, v: it.v}, iface{}}
+		}
 		b, err := json.Marshal(genericToGo(a[0]))
 		if err != nil {
 			return tuple{[]value(nil), fr.i.mkError(err.Error())}
